@@ -220,6 +220,21 @@ dataframe::dataframe(const std::filesystem::path &fn, const params &p)
 dataframe::dataframe(const std::filesystem::path &fn) : dataframe(fn, {}) {}
 
 ///
+/// Copies the metadata (columns and class labels) of another dataframe.
+///
+/// \param[in] other the dataframe whose schema is copied
+///
+/// Examples aren't copied. Useful for a dataframe that receives examples moved
+/// from `other` (e.g. a validation set carved out of the training set): its
+/// `classes()` / `class_name()` / `columns` must describe those examples.
+///
+void dataframe::clone_schema(const dataframe &other)
+{
+  columns = other.columns;
+  classes_map_ = other.classes_map_;
+}
+
+///
 /// Removes all elements from the container.
 ///
 /// Invalidates any references, pointers or iterators referring to contained
